@@ -71,6 +71,9 @@ type CGScenario struct {
 
 func genModel(t *tape.Tape, thorough bool) []MClass {
 	pkgs := []string{"p", "q.r", "com.x"}
+	if t.Bool(1, 4) {
+		pkgs = []string{"p", "", "com.x"} // some classes live in the default package
+	}
 	clsNames := []string{"A", "B", "C", "D", "E", "F"}
 	maxClasses, maxMethods := 4, 4
 	if thorough {
